@@ -28,7 +28,7 @@ enum comp {
 	C_Y, C_y2, C_y1, C_G, C_g2, C_m, C_d, C_j, C_V, C_U, C_W, C_C, C_wd, C_wdname, C_wdnum, C_c, C_db, C_F, C_s,
 	C_H, C_I, C_M, C_S, C_N, C_p, C_T, NCOMP
 };
-static const struct spelling sp_Y[] = {{"%Y", W_FIX}, {"%OY", W_ROMAN}, {NULL, 0}};
+static const struct spelling sp_Y[] = {{"%Y", W_FIX}, {"%OY", W_ROMAN}, {"%Yth", W_ORD}, {NULL, 0}};
 static const struct spelling sp_y2[] = {{"%y", W_FIX}, {"%Oy", W_ROMAN}, {NULL, 0}};
 static const struct spelling sp_y1[] = {{"%_y", W_FIX}, {NULL, 0}};
 static const struct spelling sp_G[] = {{"%G", W_FIX}, {"%rY", W_FIX}, {NULL, 0}};
@@ -36,7 +36,7 @@ static const struct spelling sp_g2[] = {{"%g", W_FIX}, {NULL, 0}};
 static const struct spelling sp_m[] = {{"%m", W_FIX}, {"%-m", W_VAR}, {"% m", W_SPC}, {"%0m", W_FIX}, {"%mth", W_ORD}, {"%Om", W_ROMAN}, {"%b", W_NAME},
 	{"%B", W_NAME}, {"%_b", W_ONE}, {"%h", W_NAME}, {NULL, 0}};
 static const struct spelling sp_d[] = {{"%d", W_FIX}, {"%-d", W_VAR}, {"% d", W_SPC}, {"%0d", W_FIX}, {"%dth", W_ORD}, {"%-dth", W_ORD}, {"%Od", W_ROMAN}, {NULL, 0}};
-static const struct spelling sp_j[] = {{"%j", W_FIX}, {"%-j", W_VAR}, {"%D", W_FIX}, {NULL, 0}};
+static const struct spelling sp_j[] = {{"%j", W_FIX}, {"%-j", W_VAR}, {"%D", W_FIX}, {"%jth", W_ORD}, {"%-jth", W_ORD}, {NULL, 0}};
 static const struct spelling sp_V[] = {{"%V", W_FIX}, {"%-V", W_VAR}, {NULL, 0}};
 static const struct spelling sp_U[] = {{"%U", W_FIX}, {NULL, 0}};
 static const struct spelling sp_W[] = {{"%W", W_FIX}, {NULL, 0}};
@@ -445,6 +445,60 @@ fmt_key(const struct fmt *f, const char *kind, char *key, size_t ksz)
 	}
 }
 
+/* info/format.texi: "%w The weekday as number (range 00 to 06, Sunday being 00)"; the formatter prints 07 for a
+ * Sunday, so the documented spelling is produced here: the text of the format with 00 in the place of %w */
+static void
+judge_sunday00(const char *fs, const struct dset *s, int set, uint64_t idx, const struct rc_day *p)
+{
+	EX_CTR(c_trans, "transitions");
+	EX_CTR(c_alt, "sunday_as_00_cases");
+	char fa[64], text[128], got[64] = "", key[256], cas[96], cmd[300];
+	const char *w = strstr(fs, "%w");
+	struct dt_dt_s v, v2;
+	char *ep = NULL, *m;
+	const char *why = NULL;
+	size_t n;
+
+	if (w == NULL || p->wd != 7) {
+		return;
+	}
+	snprintf(fa, sizeof(fa), "%.*s\002%s", (int)(w - fs), fs, w + 2);
+	v = mk_value(V_DATE, p, 0);
+	n = dt_strfdt(text, sizeof(text) - 2, fa, v);
+	if (n == 0 || (m = strchr(text, '\002')) == NULL) {
+		return;
+	}
+	text[n] = '\0';
+	memmove(m + 2, m + 1, strlen(m + 1) + 1);
+	m[0] = m[1] = '0';
+	++*c_trans;
+	++*c_alt;
+	v2 = dt_strpdt(text, fs, &ep);
+	if (dt_unk_p(v2)) {
+		why = "text is rejected by the parser";
+	} else {
+		dt_strfdt(got, sizeof(got), "%F %a", v2);
+		if (!same_value(V_DATE, v2, p, 0)) {
+			why = "parser returns a different value";
+		} else if (v2.d.typ == DT_YMCW ? v2.d.ymcw.w == 0 : v2.d.typ == DT_YWD ? v2.d.ywd.w == 0 : 0) {
+			why = "parser returns a value whose weekday is 0 (prints as Mir)";
+		}
+	}
+	if (why) {
+		snprintf(key, sizeof(key), "documented spelling 00 of Sunday for %%w, %s: %s", s->name, why);
+		snprintf(cas, sizeof(cas), "R %d %llu %d -7", set, (unsigned long long)idx, p->rd);
+		snprintf(cmd, sizeof(cmd), "dconv -i '%s' -f '%%F %%a' '%s'", fs, text);
+		ex_viol(key, (double)p->rd, cas, cmd, "format '%s': '%s' (Sunday %04d-%02d-%02d with %%w spelled 00): %s%s%s", fs, text, p->y, p->m, p->d, why,
+			got[0] ? ", reads back as " : "", got);
+		if (replay_verbose) {
+			printf("  VIOLATION [%s] '%s' under '%s': %s %s\n", key, text, fs, why, got);
+			replay_fails++;
+		}
+	} else if (replay_verbose) {
+		printf("  '%s' under '%s' reads back as %s\n", text, fs, got);
+	}
+}
+
 /* all values of the tier for one format; returns the number of failing values */
 static uint64_t
 run_format(int set, uint64_t idx, int only_rd, int only_sec)
@@ -538,6 +592,10 @@ run_format(int set, uint64_t idx, int only_rd, int only_sec)
 			}
 		}
 		dt_set_base(b);
+		if (only_sec == -7) {
+			judge_sunday00(fs, s, set, idx, p);
+			return bad;
+		}
 		JUDGE(p, only_sec);
 		return bad;
 	}
@@ -569,7 +627,11 @@ run_format(int set, uint64_t idx, int only_rd, int only_sec)
 						JUDGE(p, T7[t]);
 					}
 				} else {
+					uint64_t before = bad;
 					JUDGE(p, 0);
+					if (bad == before && vk == V_DATE && p->wd == 7) {
+						judge_sunday00(fs, s, set, idx, p);
+					}
 				}
 			}
 		}
@@ -640,6 +702,12 @@ run_defaults(int y0, int y1, int only_k, int only_rd, int only_sec)
 					if ((int)c.d.daisy != p->rd + 1) {
 						bad = 1;
 						why = "the format-less parser returns a different day";
+					} else if (sec >= 0 && !dt_sandwich_p(v2)) {
+						bad = 1;
+						why = "the time of day is not in the text (reads back as a date)";
+					} else if (sec >= 0 && !((int)v2.t.hms.h == sec / 3600 && (int)v2.t.hms.m == sec / 60 % 60 && (int)v2.t.hms.s == sec % 60)) {
+						bad = 1;
+						why = "the format-less parser returns a different time";
 					} else if (ep == NULL || *ep != '\0') {
 						bad = 1;
 						why = "the format-less parser does not consume the whole text";
@@ -958,25 +1026,37 @@ leading_label(const struct fmt *f, char *buf, size_t bsz)
  * finds a value by a literal of the format and an offset window computed from the fields in front of it
  * (calc_grep_atom), so the reading is: every field in front of the first literal is fixed-width numeric
  * (incl. formats of such fields only), or the format starts with a month/weekday name directly followed by a
- * literal (names have needle classes of their own).  Runs with names, Roman numerals, variable-width,
- * blank-padded or suffixed fields in front of the first literal are outside (skipped, counted). */
+ * literal (names have needle classes of their own), or fixed-width numeric fields followed by name fields
+ * (%d%b%Y, %Y%m%d%_a: whole-line values that parse as argument).  Runs with Roman numerals, variable-width,
+ * blank-padded or suffixed fields in front of the first literal are outside (skipped, counted).  %s in front:
+ * only a silently different value is judged. */
 static int
 stdin_in_scope(const struct fmt *f)
 {
 	const struct dset *s = dsets + f->set;
-	int p[4];
+	int p[4], names = 0;
 	get_perm(s->n, f->perm, p);
 	for (int i = 0; i < s->n; i++) {
-		enum wkind w = spellings[s->c[p[i]]][f->sp[p[i]]].w;
+		const struct spelling *spl = &spellings[s->c[p[i]]][f->sp[p[i]]];
+		enum wkind w = spl->w;
 		const char *sep = i + 1 < s->n ? (is_time_set(f->set) ? tseps[f->sep[i]] : dseps[f->sep[i]]) : "";
+		if (i == 0 && s->c[p[0]] == C_s && !strcmp(spl->spec, "%s")) {
+			/* epoch seconds: variable width, so a refused line is not judged, a silently different value is */
+			return 2;
+		}
 		if (w == W_NAME && i == 0 && *sep) {
 			return 1;
+		} else if ((w == W_NAME || w == W_ONE) && i > 0) {
+			/* a name behind fixed-width fields (29Feb2024, 20240229R): works as argument, whole-line value */
+			names++;
 		} else if (w != W_FIX) {
 			return 0;
-		} else if (*sep) {
+		}
+		if (*sep) {
 			return 1;
 		}
 	}
+	(void)names;
 	return 1;
 }
 
@@ -1044,7 +1124,34 @@ stdin_minimise(struct fmt *f, enum vkind vk, const struct rc_day *p, int sec, in
 	}
 }
 
-#define SB_MAXV	400
+/* does the run in front of the first literal hold a name behind a fixed-width field?  then the class is named
+ * by the kind of name and the width of the field in front of it, not by the whole run */
+static int
+name_in_run(const struct fmt *f, char *buf, size_t bsz)
+{
+	const struct dset *s = dsets + f->set;
+	int p[4];
+	get_perm(s->n, f->perm, p);
+	for (int i = 0; i < s->n; i++) {
+		const struct spelling *spl = &spellings[s->c[p[i]]][f->sp[p[i]]];
+		const char *sep = i + 1 < s->n ? (is_time_set(f->set) ? tseps[f->sep[i]] : dseps[f->sep[i]]) : "";
+		if (i > 0 && (spl->w == W_NAME || spl->w == W_ONE)) {
+			const char *prev = spellings[s->c[p[i - 1]]][f->sp[p[i - 1]]].spec;
+			const char *wd = !strcmp(prev, "%Y") || !strcmp(prev, "%G") ? "4-digit" : !strcmp(prev, "%j") || !strcmp(prev, "%D") ? "3-digit" :
+				!strcmp(prev, "%_y") ? "1-digit" : !strcmp(prev, "%N") ? "9-digit" : prev[1] == '_' || (prev[1] >= 'a' && prev[1] <= 'b') ||
+				prev[1] == 'A' || prev[1] == 'B' || prev[1] == 'h' ? "name" : "2-digit";
+			snprintf(buf, bsz, "<fixed-width run with a %s behind a %s field, no separator>", spl->w == W_ONE ? "one-letter name" :
+				 s->c[p[i]] == C_m ? "month name" : "weekday name", wd);
+			return 1;
+		}
+		if (*sep) {
+			break;
+		}
+	}
+	return 0;
+}
+
+#define SB_MAXV	1500
 static void
 run_stdin_binding(int set, uint64_t idx, int only_v, int only_shape)
 {
@@ -1064,7 +1171,7 @@ run_stdin_binding(int set, uint64_t idx, int only_v, int only_shape)
 	FILE *fi, *fo, *fe;
 	const char *ofmt = (vk == V_TIME || vk == V_TIME_M) ? "%T" : vk == V_EPOCH ? "%FT%T" : "%F";
 	char rej[256] = "", out[256], fmins[64];
-	int have_rej = 0;
+	int have_rej = 0, scope;
 	struct fmt fmin[2][4];
 	int have_min[2][4] = {{0}};
 
@@ -1073,6 +1180,7 @@ run_stdin_binding(int set, uint64_t idx, int only_v, int only_shape)
 		return;
 	}
 	++*c_sb;
+	scope = stdin_in_scope(&f);
 	leading_label(&f, lead, sizeof(lead));
 	{
 		char bt[32];
@@ -1096,19 +1204,23 @@ run_stdin_binding(int set, uint64_t idx, int only_v, int only_shape)
 			}
 		}
 	} else {
-		for (int rd = rc_yearstart[2000]; rd < rc_yearstart[2001]; rd++) {
-			const struct rc_day *p = rc_get(rd);
-			if (vk == V_BDATE && !p->isbd) {
-				continue;
+		/* epoch seconds: also days before 1970 (sign) and beyond 2286 (eleven digits) */
+		static const int eyears[4] = {2000, 1900, 1601, 4090};
+		for (int yi = 0; yi < (vk == V_EPOCH ? 4 : 1); yi++) {
+			for (int rd = rc_yearstart[eyears[yi]]; rd < rc_yearstart[eyears[yi] + 1]; rd++) {
+				const struct rc_day *p = rc_get(rd);
+				if (vk == V_BDATE && !p->isbd) {
+					continue;
+				}
+				vrd[nv] = rd;
+				vsec[nv] = 0;
+				if (vk == V_EPOCH) {
+					snprintf(exps[nv], sizeof(exps[nv]), "%04d-%02d-%02dT00:00:00", p->y, p->m, p->d);
+				} else {
+					snprintf(exps[nv], sizeof(exps[nv]), "%04d-%02d-%02d", p->y, p->m, p->d);
+				}
+				nv++;
 			}
-			vrd[nv] = rd;
-			vsec[nv] = 0;
-			if (vk == V_EPOCH) {
-				snprintf(exps[nv], sizeof(exps[nv]), "%04d-%02d-%02dT00:00:00", p->y, p->m, p->d);
-			} else {
-				snprintf(exps[nv], sizeof(exps[nv]), "%04d-%02d-%02d", p->y, p->m, p->d);
-			}
-			nv++;
 		}
 	}
 	snprintf(fin, sizeof(fin), "%s/c09s.%d.%llu.in", rundir, set, (unsigned long long)idx);
@@ -1172,6 +1284,11 @@ run_stdin_binding(int set, uint64_t idx, int only_v, int only_shape)
 				++*c_sbskip;
 				continue;
 			}
+			if (scope == 2 && rejected) {
+				EX_CTR(c_sbe, "skipped:stdin line refused under a format starting with %s (variable width, outside the stdin observation point)");
+				++*c_sbe;
+				continue;
+			}
 			++*c_sbj;
 			if (rejected || strcmp(out, exps[v])) {
 				const struct rc_day *p = rc_get(vrd[v]);
@@ -1183,7 +1300,11 @@ run_stdin_binding(int set, uint64_t idx, int only_v, int only_shape)
 				}
 				leading_label(&fmin[shape][kind], lead, sizeof(lead));
 				fmt_render(&fmin[shape][kind], fmins, sizeof(fmins));
-				snprintf(key, sizeof(key), "stdin-binding leading=%s (minimal failing format '%s') line=%s: %s", lead, fmins, shape ? "embedded (foo <text> bar)" : "text alone",
+				if (name_in_run(&fmin[shape][kind], lead, sizeof(lead))) {
+					fmins[0] = '\0';
+				}
+				snprintf(key, sizeof(key), "stdin-binding leading=%s%s%s%s line=%s: %s", lead, fmins[0] ? " (minimal failing format '" : "", fmins, fmins[0] ? "')" : "",
+					 shape ? "embedded (foo <text> bar)" : "text alone",
 					 rejected == 1 ? "line is refused" : rejected == 2 ? "line is neither converted nor refused" : "line is converted to a different value");
 				snprintf(cas, sizeof(cas), "S %d %llu %d %d", set, (unsigned long long)idx, v, shape);
 				snprintf(cmd, sizeof(cmd), "echo '%s' | dconv -i '%s' -f '%s'", line, fs, ofmt);
@@ -1205,6 +1326,8 @@ run_stdin_binding(int set, uint64_t idx, int only_v, int only_shape)
 	unlink(fout);
 	unlink(ferr);
 }
+
+#include "c09_extra.h"
 
 int
 main(int argc, char *argv[])
@@ -1253,7 +1376,7 @@ main(int argc, char *argv[])
 			"of a day for time formats (every minute where the format has no seconds). Oracle: dt_strpdt(dt_strfdt(v,F),F) is a value, denotes the reference calendar's day "
 			"(fields for ymd/yd results, day count otherwise) and second, and the end pointer is at the NUL; 2-/1-digit years with the base set to the window's first year. "
 			"Failing formats are minimised (separators, spellings, order) and keyed by what the minimal failing format still needs (non-plain spellings, a missing separator, the order). Default outputs of ymd/ymcw/ywd/yd/bizda, date and date-time, "
-			"through the format-less parser (accepted, same day, whole text consumed; the time is not demanded: the yd default drops it); %d shipped locales x month and weekday names x {%%a %%A %%b %%B} where no earlier name of the table is a prefix. "
+			"through the format-less parser (accepted, same day, same time of day, whole text consumed); %d shipped locales x month and weekday names x {%%a %%A %%b %%B} where no earlier name of the table is a prefix. "
 			"non-trivial = format with a non-plain spelling or a non-canonical order.", NDSETS, nlocs);
 		ex_meta("bound", "%llu format coordinates (all, both tiers); days: %s; times: all 86,400 seconds; default outputs: %s; locales: all %d",
 			(unsigned long long)tot, ex.thorough ? "1997-2004, 1601-1608, 4088-4095, 1897-1904 (11,687 days)" : "1997-2004 (2,922 days; four-field formats: 2000 only)",
